@@ -147,7 +147,7 @@ fn boundaries_of<D: Doc>(p: &PrepDoc<D>) -> Vec<usize> {
 }
 
 pub fn n_units(tier: Tier) -> u64 {
-    ALL_DOCS.len() as u64 * values_per_doc(tier, 24, 300)
+    n_docs() * values_per_doc(tier, 24, 300)
 }
 
 struct RunUnit<'a> {
